@@ -108,7 +108,6 @@ func Verify(_ *log.Logger, file string) error {
 			return io.ReadAll(reader)
 		},
 		func(e EntryV3) {
-			offsets.Add(e.Offset)
 			addressedTiles += int(e.RunLength)
 			tileEntries++
 
@@ -131,6 +130,7 @@ func Verify(_ *log.Logger, file string) error {
 					currentOffset += uint64(e.Length)
 				}
 			}
+			offsets.Add(e.Offset)
 		})
 
 	if err != nil {
